@@ -239,7 +239,7 @@ TREES = {
                                                                              st("and", "more"), st("but", "not this")]},
         {"k": "s", "name": "Second: with colon", "tags": [], "desc": ["some description"], "steps": [st("star", "generic first"), st("when", "x"), st("star", "generic after when")]},
     ]},
-    "bg-rule": {"name": "With backgrounds", "tags": [], "desc": [], "bg": {"name": "fb", "steps": [st("given", "fb1"), st("and", "fb2")]}, "items": [
+    "bg-rule": {"name": "With backgrounds", "tags": [["ft1"], ["ft2", "ft3"]], "desc": [], "bg": {"name": "fb", "steps": [st("given", "fb1"), st("and", "fb2")]}, "items": [
         {"k": "s", "name": "uses bg type", "tags": [], "desc": [], "steps": [st("and", "inherits given from background"), st("then", "t")]},
         {"k": "s", "name": "ends with then", "tags": ["x"], "desc": [], "steps": [st("when", "w"), st("then", "t2")]},
         {"k": "r", "name": "R1", "tags": ["r"], "desc": ["rule text"], "bg": {"name": "", "steps": [st("star", "rule bg star first"), st("and", "rule bg and")]}, "items": [
